@@ -4,7 +4,7 @@ from spec import paging as SP
 from ..bits import BV, Aff, lit
 from ..interp import Outcome, State, Unsupported
 from ..values import UNIT, Array, Closure, Enum, Opaque, Ptr, Ref, Struct
-from .common import adt, arg_obj, bv, declare, enum_val, eval_value, fn_site, inner, same, size_ty, sl
+from .common import adt, entry_pred_is_all_zero, arg_obj, bv, declare, enum_val, eval_value, fn_site, inner, same, size_ty, sl
 from .mapper import MAPPED, MP, PG, PTE, REC, TBL, MapperLab, table_val
 from .c20 import rec_addr
 
@@ -32,6 +32,14 @@ def run(chk):
     for impl in ('mapped', 'recursive'):
         chk.guard('clean-up', impl, lambda impl=impl: helper(chk, impl))
         chk.guard('clean-up', impl + ' entry points', lambda impl=impl: entry_points(chk, impl))
+    # the iterator the helper loops over (modelled above as yielding (i, slot i)) really is that: iter()/iter_mut() map 0..512 to
+    # the table's own slots, and is_empty / the `all` predicate mean all-zero
+    from .c08 import iter_rules
+
+    def r1(fn_, args, st=None, sub=None):
+        chk.count('function-instances')
+        return chk.I.run(fn_, args, st if st is not None else State(), sub)
+    chk.guard('iter', 'PageTable::iter / iter_mut', lambda: iter_rules(chk, chk.I, r1))
     chk.floor('obligations', len(chk.obs), 29)
 
 
@@ -106,6 +114,8 @@ def helper(chk, impl):
             its = [e for e in ev if e[0] == 'icall' and e[1].endswith('PageTable::iter')]
             okr = okr and len(alls) == 1 and len(its) >= 1 and its[-1][2][0].loc == ('obj', 'T') and ev.index(alls[0]) > max([ev.index(x) for x in ev if x[1].endswith('::next')] + [-1])
             okr = okr and isinstance(o.val, BV) and any(isinstance(b, tuple) and b[0] == 'v' and b[1].startswith('all#') for b in o.val.bits)
+            # "empty" means every slot is all-zero (a non-present entry that still holds bits keeps the table alive)
+            okr = okr and len(alls) == 1 and len(alls[0][2]) == 2 and entry_pred_is_all_zero(lab.I, alls[0][2][1])
         chk.ob('clean-up', '%s: returns false for an empty range, otherwise whether its own table is empty after the loop' % tag, okr, 'paths %r' % ([(o.kind, o.val) for o in outs][:6],), site)
         if lv == 1:
             chk.ob('clean-up', '%s: level-1 tables are never iterated (no slot visited, nothing freed)' % tag, not loops and all(not [e for e in o.st.events if e[0] in ('yield',) or (e[0] == 'call' and e[1] == DEALLOC)] for o in outs),
